@@ -70,6 +70,15 @@ CHECKS["C16"] = dict(
     technique="bounded symbolic execution with path forking over station orderings + z3 vs reference blend; replay on real code",
     ref="5/C16")
 
+CHECKS["C07"] = dict(
+    text="One inductive step per public operation (state setters in three argument shapes, control setter, add/remove aircraft, solves, distributions after a state change) from an "
+         "arbitrary cache-consistent scene with symbolic base state and arguments: the real operation runs symbolically and z3 decides that the complete stored physical state the "
+         "next query depends on equals that of a freshly constructed scene in the post base state, and that the solved flag only announces results of the current state. "
+         "Queries are uninterpreted functions of the stored state, so a stale cache is refutable. Histories of any length follow by induction on the invariant.",
+    note="Analyses as operations are covered by C08's harness (same oracle); LLsolve/AeroADT stubs; <=2 aircraft; the real solver's internal iteration state is C14's subject.",
+    technique="inductive-step bounded symbolic execution of the real API operations + z3 state-equality obligations vs fresh construction; replay on real code",
+    ref="5/C07")
+
 NOT_APPLICABLE = {
     "C18": "classical lifting-line limits: a convergence statement about the N>=20 discrete solution (value and rate under grid refinement); no bounded SMT encoding of the 40x40 transcendental system is within reach and the small N the engine handles is where the claim is not expected to hold",
 }
